@@ -282,8 +282,9 @@ def conditions(tier, seed):
     else:
         out += [make_load(3, k, 3, to) for k in range(3)]
     out += [make_load_texts(to), make_load_nontext(to), make_decode(to), make_decode_str(to)]
-    from vlib.fixtures import models as M
-    from vlib.shapes import Picked
+    if not any(c.name == "carriers/Slug(str)" for c in out):  # a user subclass of str (in the catalogue core; kept explicit)
+        from vlib.fixtures import models as M
+        from vlib.shapes import Picked
 
-    out.append(make_carriers(Picked(M.Slug, [M.Slug("abc"), M.Slug("")], name="Slug(str)"), to))
+        out.append(make_carriers(Picked(M.Slug, [M.Slug("abc"), M.Slug("")], name="Slug(str)"), to))
     return out
